@@ -159,7 +159,8 @@ def _mutate_geom(rng, g, hi):
     return g
 
 
-_KINDS = ["c128", "c128", "c128", "f64", "f64", "f32", "c64", "i64", "impulse", "ramp"]
+_KINDS = ["c128", "c128", "c128", "c128", "f64", "f64", "f64", "f32", "f32", "c64", "c64", "i64", "impulse", "ramp",
+          "impulse", "ramp", "i8", "i16", "u8", "bool"]
 
 
 def _fft_Q(rng, m, n):
@@ -1045,7 +1046,8 @@ def simplifiers(plan):
                     yield p
 
 
-_KIND_RANK = {"ones": 0, "impulse": 1, "ramp": 2, "f64": 3, "c128": 4, "f32": 5, "c64": 6, "i64": 7}
+_KIND_RANK = {"ones": 0, "impulse": 1, "ramp": 2, "f64": 3, "c128": 4, "f32": 5, "c64": 6, "i64": 7, "i16": 8, "i8": 8,
+              "u8": 8, "bool": 8}
 
 
 def plan_cost(plan):
